@@ -84,7 +84,9 @@ package api
 //	  C18.version-gap               the versions of the k successes are not v0+1..v0+k
 //	  C18.final-state-mismatch      final listing != fold of the successes in version order
 //	  C18.final-version-mismatch    stored version != v0+k
-//	  C18.final-listing-unavailable the listing cannot be read after the faults are over
+//	  (the final state and version are read from the store; the admin listing is
+//	  compared too when it answers, probe final_listing_unavailable_store_read_instead
+//	  otherwise: the statement promises nothing about reads)
 //	  C18.not-linearizable          the history (mutations with their versions, gets, lists)
 //	                                has no linearisation against a map+counter model (porcupine)
 //	  C18.version-reads-not-linearizable  the versions of the successes and the
@@ -113,6 +115,9 @@ package api
 // the connection without an answer instead of sending 503).
 //
 // Oracle leniency (statement silent / two readings), also in Assumptions:
+//   * "successful" create/update/delete = any 2xx (the statement names only 409 and
+//     400); a read (get/list) answered 5xx, or 200 with a body that cannot be parsed,
+//     has an unknown outcome and is left out, like a 5xx mutation;
 //   * lease expiry while holding is not generated; the leases are MaxLeaseTTL;
 //   * "leave" = the moment Unlock is CALLED, "enter" = the moment Lock returned nil;
 //   * a lock key left behind by a failed UNLOCK (statement speaks of failed
@@ -1063,6 +1068,10 @@ func (s c18State) String() string {
 	return fmt.Sprintf("{ver %d %s=%v %s=%v %s=%v%s}", s.ver, c18Names[0], s.o[0], c18Names[1], s.o[1], c18Names[2], s.o[2], g)
 }
 
+// c18Success: the statement speaks of "successful" create/update/delete and
+// names no success code: every 2xx is a success.
+func c18Success(status int) bool { return status >= 200 && status < 300 }
+
 func c18NameIdx(n string) int {
 	for i, x := range c18Names {
 		if x == n {
@@ -1245,7 +1254,7 @@ func c18Step(st c18State, in c18In, out c18Out) (bool, c18State) {
 		if st.o[in.name].present {
 			return out.status == 409, st
 		}
-		if out.status != 201 || out.ver != st.ver+1 {
+		if !c18Success(out.status) || out.ver != st.ver+1 {
 			return false, st
 		}
 		st.ver++
@@ -1259,7 +1268,7 @@ func c18Step(st c18State, in c18In, out c18Out) (bool, c18State) {
 		if cur.kind != in.obj.kind {
 			return out.status == 400, st
 		}
-		if out.status != 200 || out.ver != st.ver+1 {
+		if !c18Success(out.status) || out.ver != st.ver+1 {
 			return false, st
 		}
 		st.ver++
@@ -1269,7 +1278,7 @@ func c18Step(st c18State, in c18In, out c18Out) (bool, c18State) {
 		if !st.o[in.name].present {
 			return out.status == 404, st
 		}
-		if out.status != 200 || out.ver != st.ver+1 {
+		if !c18Success(out.status) || out.ver != st.ver+1 {
 			return false, st
 		}
 		st.ver++
@@ -1290,7 +1299,7 @@ func c18Step(st c18State, in c18In, out c18Out) (bool, c18State) {
 	case c18OpPurge:
 		// no object and no version changes; a member can be purged once
 		if in.name == 0 && st.ghost {
-			if out.status != 200 {
+			if !c18Success(out.status) {
 				return false, st
 			}
 			st.ghost = false
@@ -1371,7 +1380,7 @@ func c18Linearizable(init c18State, hist []c18HistOp) (objOK, verOK, unknown boo
 		ops = append(ops, porcupine.Operation{ClientId: i, Input: h.in, Call: int64(h.call), Output: h.out, Return: int64(h.ret)})
 		if h.hasVerRead {
 			vops = append(vops, porcupine.Operation{ClientId: i, Input: c18In{op: c18OpReadVer}, Call: int64(h.call), Output: c18Out{ver: h.verRead}, Return: int64(h.ret)})
-		} else if h.in.op <= c18OpDelete && (h.out.status == 200 || h.out.status == 201) {
+		} else if h.in.op <= c18OpDelete && c18Success(h.out.status) {
 			vops = append(vops, porcupine.Operation{ClientId: i, Input: h.in, Call: int64(h.call), Output: h.out, Return: int64(h.ret)})
 		}
 	}
@@ -1731,8 +1740,12 @@ func c18Exec(r *sim.Run, sci interface{}) {
 				case h.in.op == c18OpGet && resp.status == 200:
 					var mm map[string]interface{}
 					if err := yaml.Unmarshal([]byte(resp.body), &mm); err != nil {
-						r.Violate("C18.unexpected-status", "%s: GET %s answered 200 with a body that is not YAML: %q", name, path, resp.body)
-						return
+						// the statement says nothing about reads: a read whose body cannot
+						// be used (e.g. an error report appended after the answer had been
+						// started) is left out like a 5xx answer
+						r.Probe("read_answered_200_with_unusable_body")
+						h.failed, sawFailure = true, true
+						break
 					}
 					nn, o := c18ObjFromMap(mm)
 					if nn != op.Name {
@@ -1742,8 +1755,9 @@ func c18Exec(r *sim.Run, sci interface{}) {
 				case h.in.op == c18OpList && resp.status == 200:
 					var l []map[string]interface{}
 					if err := yaml.Unmarshal([]byte(resp.body), &l); err != nil {
-						r.Violate("C18.unexpected-status", "%s: list answered 200 with a body that is not a YAML list: %q", name, resp.body)
-						return
+						r.Probe("read_answered_200_with_unusable_body")
+						h.failed, sawFailure = true, true
+						break
 					}
 					for _, mm := range l {
 						nn, o := c18ObjFromMap(mm)
@@ -1754,7 +1768,7 @@ func c18Exec(r *sim.Run, sci interface{}) {
 				}
 				// every answer that is not a successful mutation carries the version
 				// the attacher middleware read before the handler ran
-				succ := h.in.op <= c18OpDelete && (resp.status == 200 || resp.status == 201)
+				succ := h.in.op <= c18OpDelete && c18Success(resp.status)
 				if !h.failed && !succ && resp.ver >= 0 {
 					h.hasVerRead, h.verRead = true, resp.ver
 				}
@@ -2001,10 +2015,12 @@ func c18JudgeAPI(r *sim.Run, e *c18Env, sc *c18Scenario, init c18State, hist []c
 		okStatus := false
 		switch h.in.op {
 		case c18OpCreate:
-			okStatus = h.out.status == 201 || h.out.status == 409
+			okStatus = c18Success(h.out.status) || h.out.status == 409
 		case c18OpUpdate:
-			okStatus = h.out.status == 200 || h.out.status == 404 || h.out.status == 400
-		case c18OpDelete, c18OpGet:
+			okStatus = c18Success(h.out.status) || h.out.status == 404 || h.out.status == 400
+		case c18OpDelete:
+			okStatus = c18Success(h.out.status) || h.out.status == 404
+		case c18OpGet:
 			okStatus = h.out.status == 200 || h.out.status == 404
 		case c18OpList:
 			okStatus = h.out.status == 200
@@ -2013,7 +2029,7 @@ func c18JudgeAPI(r *sim.Run, e *c18Env, sc *c18Scenario, init c18State, hist []c
 			// (statement silent about the code: any 4xx) ...
 			okStatus = h.out.status >= 400 && h.out.status < 500
 		case c18OpPurge:
-			okStatus = h.out.status == 200 || h.out.status == 404
+			okStatus = c18Success(h.out.status) || h.out.status == 404
 		}
 		if h.in.enc && h.out.status >= 400 && h.out.status < 500 {
 			okStatus = true
@@ -2022,7 +2038,7 @@ func c18JudgeAPI(r *sim.Run, e *c18Env, sc *c18Scenario, init c18State, hist []c
 			r.Violate("C18.unexpected-status", "%s: %s\n%s", h.task, c18Describe(h.in, h.out), describe())
 			return
 		}
-		if h.in.op <= c18OpDelete && (h.out.status == 200 || h.out.status == 201) {
+		if h.in.op <= c18OpDelete && c18Success(h.out.status) {
 			if h.out.ver < 0 {
 				r.Violate("C18.version-missing", "%s: successful %s without %s header\n%s", h.task, c18Describe(h.in, h.out), ConfigVersionKey, describe())
 				return
@@ -2104,7 +2120,9 @@ func c18JudgeAPI(r *sim.Run, e *c18Env, sc *c18Scenario, init c18State, hist []c
 		case h.in.op == c18OpPurge:
 			r.Probe(fmt.Sprintf("purge_member_%d", h.out.status))
 			continue
-		case h.in.op <= c18OpUpdate && h.style > 0 && (h.out.status == 200 || h.out.status == 201):
+		case h.in.op <= c18OpDelete && c18Success(h.out.status) && h.out.status != 200 && h.out.status != 201:
+			r.Probe("mutation_succeeded_with_other_2xx")
+		case h.in.op <= c18OpUpdate && h.style > 0 && c18Success(h.out.status):
 			r.Probe(fmt.Sprintf("body_style_%d_stored", h.style))
 		}
 		switch h.out.status {
@@ -2163,43 +2181,84 @@ func c18JudgeAPI(r *sim.Run, e *c18Env, sc *c18Scenario, init c18State, hist []c
 			want.o[h.in.name] = c18Obj{}
 		}
 	}
-	// faults are over, but a client may still be reconnecting and a scheduler
-	// stall may exceed a small request time-out: retry
+	// "the stored objects equal the result of applying the successful requests in
+	// version order": the store itself is read (the statement does not promise that
+	// the admin GET is available; it may e.g. wait for the cluster lock)
+	var got c18State
+	extra := ""
+	if resp, err := e.store.Range(&pb.RangeRequest{Key: []byte(prober.cls.Layout().ConfigObjectPrefix()), RangeEnd: zzsimetcd.PrefixEnd(prober.cls.Layout().ConfigObjectPrefix())}); err == nil {
+		for _, kv := range resp.Kvs {
+			var mm map[string]interface{}
+			if yaml.Unmarshal(kv.Value, &mm) != nil {
+				extra += " " + string(kv.Key) + "(not YAML)"
+				continue
+			}
+			nn, o := c18ObjFromMap(mm)
+			if i := c18NameIdx(nn); i >= 0 && string(kv.Key) == prober.cls.Layout().ConfigObjectKey(nn) {
+				got.o[i] = o
+			} else {
+				extra += " " + string(kv.Key)
+			}
+		}
+	}
+	if resp, err := e.store.Range(&pb.RangeRequest{Key: []byte(prober.cls.Layout().ConfigVersion())}); err == nil && len(resp.Kvs) > 0 {
+		v, err := strconv.ParseInt(string(resp.Kvs[0].Value), 10, 64)
+		if err != nil {
+			v = -1
+		}
+		got.ver = v
+	}
+	if got.o != want.o || extra != "" {
+		r.Violate("C18.final-state-mismatch", "the store holds %v=%v %v=%v %v=%v%s, but applying the successful mutations in version order gives %v %v %v\n%s",
+			c18Names[0], got.o[0], c18Names[1], got.o[1], c18Names[2], got.o[2], extra, want.o[0], want.o[1], want.o[2], describe())
+		return
+	}
+	if got.ver != want.ver {
+		r.Violate("C18.final-version-mismatch", "the stored config version is %d after %d successful mutations starting from %d\n%s", got.ver, len(succ), init.ver, describe())
+		return
+	}
+	// the listing of the admin API, when it is available, must say the same (a read
+	// at quiescence). Faults are over, but a client may still be reconnecting and a
+	// scheduler stall may exceed a small request time-out: a few attempts
 	var final c18Resp
-	for i := 0; i < 30; i++ {
+	var l []map[string]interface{}
+	listed := false
+	for i := 0; i < 6 && !listed; i++ {
 		final = c18Do(prober, "GET", APIPrefix+ObjectPrefix, "")
 		r.Yield("final-listing-returned")
-		if final.status == 200 || r.Aborted() {
+		if r.Aborted() {
+			return
+		}
+		if final.status == 200 && yaml.Unmarshal([]byte(final.body), &l) == nil {
+			listed = true
 			break
 		}
 		e.tsleep(time.Second + 2*e.maxDown/5)
 	}
-	if r.Aborted() {
-		return
-	}
-	var got c18State
-	var l []map[string]interface{}
-	if final.status != 200 || yaml.Unmarshal([]byte(final.body), &l) != nil {
-		r.Violate("C18.final-listing-unavailable", "faults are over, but the listing answered %d %q (%s) in 30 attempts\n%s", final.status, final.body, final.panicV, describe())
-		return
-	}
-	extra := ""
-	for _, mm := range l {
-		nn, o := c18ObjFromMap(mm)
-		if i := c18NameIdx(nn); i >= 0 {
-			got.o[i] = o
-		} else {
-			extra += " " + nn
+	if !listed {
+		// not a violation of the statement; when a lock key left by a failed
+		// acquisition is the cause, the liveness probe below reports that
+		r.Probe("final_listing_unavailable_store_read_instead")
+	} else {
+		var lst c18State
+		lextra := ""
+		for _, mm := range l {
+			nn, o := c18ObjFromMap(mm)
+			if i := c18NameIdx(nn); i >= 0 {
+				lst.o[i] = o
+			} else {
+				lextra += " " + nn
+			}
 		}
-	}
-	if got.o != want.o || extra != "" {
-		r.Violate("C18.final-state-mismatch", "final listing %v=%v %v=%v %v=%v%s, but applying the successful mutations in version order gives %v %v %v\n%s",
-			c18Names[0], got.o[0], c18Names[1], got.o[1], c18Names[2], got.o[2], extra, want.o[0], want.o[1], want.o[2], describe())
-		return
-	}
-	if final.ver != want.ver {
-		r.Violate("C18.final-version-mismatch", "the stored config version is %d after %d successful mutations starting from %d\n%s", final.ver, len(succ), init.ver, describe())
-		return
+		if lst.o != want.o || lextra != "" {
+			r.Violate("C18.final-state-mismatch", "final listing %v=%v %v=%v %v=%v%s, but applying the successful mutations in version order gives %v %v %v\n%s",
+				c18Names[0], lst.o[0], c18Names[1], lst.o[1], c18Names[2], lst.o[2], lextra, want.o[0], want.o[1], want.o[2], describe())
+			return
+		}
+		if final.ver != want.ver {
+			r.Violate("C18.final-version-mismatch", "the X-Config-Version of the final listing is %d after %d successful mutations starting from %d\n%s", final.ver, len(succ), init.ver, describe())
+			return
+		}
 	}
 	if objOK, verOK, unknown := c18Linearizable(init, hist); unknown {
 		r.Probe("porcupine_inconclusive")
@@ -2244,6 +2303,7 @@ func TestVerifC18(t *testing.T) {
 			"full O2 only on runs without 5xx answers; with 5xx answers only distinct + real-time-increasing versions of the successes",
 			"porcupine search bounded by 3e6 model steps; exhausted = inconclusive",
 			"X-Config-Version of non-mutating / refused requests is treated as a read of the counter inside the request interval",
+			"a successful create/update/delete/purge is any 2xx answer; reads answered 5xx or with an unusable body are left out; the final state is read from the store, the admin listing is only compared when it answers",
 			"an unacceptable create/update request (not YAML, unknown kind, missing / invalid name, empty body, URL name != body name) is not a successful request: any 4xx is accepted, 2xx is C18.unexpected-status, and it must not change objects or version",
 			"purging a member (DELETE /status/members/x) is not a create/update/delete of an object: 200 once for the existing departed member, 404 otherwise, no version change",
 			"a name whose '~' is percent-encoded in the URL: normal outcome or 4xx without change are both accepted (statement silent)",
